@@ -744,6 +744,7 @@ func newMapDecoder(decoder *encoding.DecodeAssembler[Value, any]) encoding.Decod
 				}), nil
 			} else if typ.Elem().Kind() == reflect.Struct {
 				var decoders []encoding.Decoder[Map, unsafe.Pointer]
+				var inlineMaps []encoding.Decoder[Map, unsafe.Pointer]
 				for i := 0; i < typ.Elem().NumField(); i++ {
 					field := typ.Elem().Field(i)
 					meta := getMapMeta(field)
@@ -776,8 +777,14 @@ func newMapDecoder(decoder *encoding.DecodeAssembler[Value, any]) encoding.Decod
 						})
 					}
 
-					decoders = append(decoders, dec)
+					if meta.inline && field.Type.Kind() == reflect.Map {
+						// An inline map takes every key that is left, so it must run after all other fields.
+						inlineMaps = append(inlineMaps, dec)
+					} else {
+						decoders = append(decoders, dec)
+					}
 				}
+				decoders = append(decoders, inlineMaps...)
 
 				return encoding.DecodeFunc(func(source Value, target unsafe.Pointer) error {
 					if source == nil {
